@@ -80,11 +80,18 @@ def gen_program(seed, i):
         g = Gen(rng, rt_safe=True, features=('tempo', 'cond', 'flow', 'send', 'rand', 'call'))
         g.single_clock = rng.choice([-1, 0, 0])
         g.cond_heavy = rng.random() < 0.5
+        if g.single_clock == 0 and rng.random() < 0.4:
+            g.features.add('beats')
     else:
         g = Gen(rng, rt_safe=True, features=('pr', 'send', 'rand'))
         g.single_clock = rng.choice([-1, 0])
         if g.single_clock == 0 and rng.random() < 0.5:
             g.features.add('tempo')     # tempo changes while moved tasks are pending
+        if g.single_clock == 0 and rng.random() < 0.5:
+            # beat counter re-based by a routine of the clock; backwards only: a
+            # forward jump makes pending tasks overdue with logical times before
+            # the program's start, which non-real-time (start = 0) cannot stamp
+            g.features.add('beats')
     # exact arithmetic: dyadic deltas, power-of-two tempos and (in RT) a dyadic
     # start time, so that equal logical times are bit-equal in both modes and
     # ties are ordered by insertion in both (see vf/prog.py DYADIC_DELTAS)
@@ -163,8 +170,8 @@ def normalize(run):
             per.setdefault(e[1], []).append([k, e[2], e[3], e[4]])
         elif k in ('end', 'exc'):
             per.setdefault(e[1], []).append(list(e[:1]) + list(e[2:]))
-        elif k in ('tempo',):
-            per.setdefault(e[1], []).append(['tempo', e[2], e[3], e[4]])
+        elif k in ('tempo', 'beats'):
+            per.setdefault(e[1], []).append([k, e[2], e[3], e[4]])
     return {str(k): v for k, v in per.items()}
 
 
